@@ -1123,3 +1123,451 @@ Proof.
   - intros [cs [f [-> [-> Hsel]]]]. exists (cs ++ [f], slashcat (ps ++ cs ++ [f])). split; [reflexivity|].
     apply (walk_spec_abs_lemma matches cwd ign _ (map lower exts) ps p Hne Hok Hp d Hwf). exists cs, f. repeat split. exact Hsel.
 Qed.
+
+(* ------------------------------------------------------------------------------------------------------------------ *)
+(* relative spellings: p is any non-empty string that does not start with '/', the working directory is "/c1/../cn" *)
+
+Lemma split_on_snoc_name x n : noslash n = true -> split_on (x ++ slash :: n) = split_on x ++ [n].
+Proof.
+  intros Hn. induction x as [|c x IH].
+  - cbn [app split_on]. rewrite N.eqb_refl. rewrite (split_on_noslash n Hn). reflexivity.
+  - cbn [app split_on]. destruct (N.eqb c slash); [rewrite IH; reflexivity|].
+    rewrite IH. destruct (split_on x) as [|h t] eqn:Ex; [exfalso; eapply split_on_nonnil; exact Ex|]. reflexivity.
+Qed.
+
+(* x ends with a slash: its last component is empty *)
+Lemma split_on_slash_end x0 : split_on (x0 ++ [slash]) = split_on x0 ++ [[]].
+Proof. apply (split_on_snoc_name x0 []). reflexivity. Qed.
+
+Lemma split_on_all_noslash s : noslashes (split_on s).
+Proof.
+  induction s as [|c s IH]; [repeat constructor|]. cbn [split_on]. destruct (N.eqb c slash) eqn:E.
+  - constructor; [reflexivity|exact IH].
+  - destruct (split_on s) as [|h t]; [repeat constructor; cbn [noslash forallb]; rewrite E; reflexivity|].
+    inversion IH; subst. constructor; [|assumption]. cbn [noslash forallb]. rewrite E. assumption.
+Qed.
+
+(* with one leading slash, normalisation keeps a stack of proper names *)
+Lemma norm_step1_ok acc c : names_ok acc -> noslash c = true -> names_ok (norm_step 1 acc c).
+Proof.
+  intros Hacc Hc. unfold norm_step. destruct (is_empty c || text_eqb c dot_t) eqn:E1; [exact Hacc|].
+  apply orb_false_iff in E1 as [Hne Hd]. cbn [Nat.eqb andb orb].
+  destruct (text_eqb c dotdot_t) eqn:Hdd.
+  - cbn [negb orb]. destruct acc as [|top r]; [constructor|].
+    inversion Hacc as [|? ? Htop Hr]; subst. apply name_ok_parts in Htop. destruct Htop as [_ [_ [_ Htd]]].
+    rewrite (text_eqb_neq _ _ Htd). exact Hr.
+  - cbn [negb orb]. constructor; [|exact Hacc]. unfold name_ok, nonempty. rewrite Hne, Hc, Hd, Hdd. reflexivity.
+Qed.
+
+Lemma norm_fold1_ok l : forall acc, names_ok acc -> noslashes l -> names_ok (fold_left (norm_step 1) l acc).
+Proof.
+  induction l as [|c l IH]; intros acc Hacc Hl; [exact Hacc|]. inversion Hl; subst. cbn [fold_left]. apply IH; [apply norm_step1_ok; assumption|assumption].
+Qed.
+
+Lemma names_ok_rev l : names_ok l -> names_ok (rev l).
+Proof. unfold names_ok. rewrite !Forall_forall. intros H x Hx. apply H. apply in_rev. exact Hx. Qed.
+
+Lemma endswith_name y n : name_ok n = true -> endswith [slash] (y ++ n) = false.
+Proof.
+  intros Hn. destruct (name_last n Hn) as [n0 [x [-> Hx]]]. rewrite app_assoc. rewrite endswith_app_last. exact Hx.
+Qed.
+
+Section RelSpelling.
+  Variable cwd : text.
+  Variable cw : list text.
+  Variable p : text.
+  Hypothesis cw_ne : cw <> [].
+  Hypothesis cw_ok : names_ok cw.
+  Hypothesis cwd_is : cwd = slashcat cw.
+  Hypothesis p_ne : p <> [].
+  Hypothesis p_rel : isabs p = false.
+
+  (* the head of every dirname is the head of p *)
+  Lemma join_head x n : x <> [] -> isabs n = false -> exists y, join x n = x ++ y.
+  Proof.
+    intros Hx Hn. unfold join. rewrite Hn. destruct (is_empty x || endswith [slash] x); [exists n; reflexivity|exists (slash :: n); reflexivity].
+  Qed.
+
+  Lemma dn_head T : names_ok T -> exists y, dn p T = p ++ y.
+  Proof.
+    induction T as [|n T IH] using rev_ind; intros HT; [exists []; rewrite app_nil_r; reflexivity|].
+    apply names_ok_app in HT as [HT Hn]. inversion Hn as [|? ? Hn' _]; subst. destruct (IH HT) as [y Ey].
+    rewrite dn_snoc. destruct (join_head (dn p T) n) as [z Ez].
+    - rewrite Ey. destruct p; [contradiction|discriminate].
+    - apply isabs_name. exact Hn'.
+    - rewrite Ez, Ey, <- app_assoc. eexists. reflexivity.
+  Qed.
+
+  Lemma dn_not_abs T : names_ok T -> isabs (dn p T) = false /\ dn p T <> [].
+  Proof.
+    intros HT. destruct (dn_head T HT) as [y ->]. destruct p as [|c0 p']; [contradiction|]. split; [exact p_rel|discriminate].
+  Qed.
+
+  (* the normalisation stack (reversed components) of cwd + "/" + dirname *)
+  Definition nstack (T : list text) : list text := fold_left (norm_step 1) (split_on (dn p T)) (rev cw).
+
+  Lemma nstack_snoc T n : names_ok T -> name_ok n = true -> nstack (T ++ [n]) = n :: nstack T.
+  Proof.
+    intros HT Hn. unfold nstack. rewrite dn_snoc. destruct (dn_not_abs T HT) as [_ Hne].
+    assert (Hns : noslash n = true) by (apply name_ok_parts in Hn; tauto).
+    unfold join. rewrite (isabs_name n Hn). destruct (dn p T) as [|x0 xs] eqn:Ex; [contradiction|]. cbn [is_empty orb].
+    destruct (endswith [slash] (x0 :: xs)) eqn:Eend.
+    - (* the dirname ends with a slash *)
+      destruct (exists_last (l := x0 :: xs)) as [x' [c Ec]]; [discriminate|]. rewrite Ec in *.
+      rewrite endswith_app_last in Eend. apply N.eqb_eq in Eend. subst c.
+      rewrite <- app_assoc. cbn [app]. rewrite (split_on_snoc_name x' n Hns). rewrite split_on_slash_end.
+      rewrite !fold_left_app. cbn [fold_left]. rewrite (norm_step_ok 1 _ n Hn). reflexivity.
+    - rewrite (split_on_snoc_name (x0 :: xs) n Hns). rewrite fold_left_app. cbn [fold_left]. rewrite (norm_step_ok 1 _ n Hn). reflexivity.
+  Qed.
+
+  Lemma nstack_all T : names_ok T -> nstack T = rev T ++ nstack [].
+  Proof.
+    induction T as [|n T IH] using rev_ind; intros HT; [reflexivity|].
+    apply names_ok_app in HT as [HT Hn]. inversion Hn as [|? ? Hn' _]; subst.
+    rewrite (nstack_snoc T n HT Hn'). rewrite rev_app_distr. cbn [rev app]. rewrite (IH HT). reflexivity.
+  Qed.
+
+  Lemma nstack_ok T : names_ok (nstack T).
+  Proof. unfold nstack. apply norm_fold1_ok; [apply names_ok_rev; exact cw_ok|apply split_on_all_noslash]. Qed.
+
+  Definition base : list text := rev (nstack []).
+
+  Lemma base_ok : names_ok base.
+  Proof. apply names_ok_rev. apply nstack_ok. Qed.
+
+  Lemma join_cwd x : isabs x = false -> join cwd x = slashcat cw ++ slash :: x.
+  Proof.
+    intros Hx. unfold join. rewrite Hx, cwd_is. rewrite (endswith_slashcat cw cw_ne cw_ok).
+    destruct cw as [|a l]; [contradiction|]. reflexivity.
+  Qed.
+
+  (* abspath of a dirname: "/" + the names of base + the names walked *)
+  Lemma abspath_dn_rel T : names_ok T -> abspath cwd (dn p T) = slash :: intercalate (base ++ T).
+  Proof.
+    intros HT. destruct (dn_not_abs T HT) as [Hab _]. unfold abspath. rewrite Hab. rewrite (join_cwd _ Hab).
+    unfold normpath.
+    assert (Hemp : is_empty (slashcat cw ++ slash :: dn p T) = false).
+    { clear -cw_ne. destruct cw as [|a l]; [contradiction|reflexivity]. }
+    rewrite Hemp.
+    assert (Hinit : initial_slashes (slashcat cw ++ slash :: dn p T) = 1).
+    { clear -cw_ne cw_ok. destruct cw as [|a l]; [contradiction|]. apply initial_slashes_slashcat. inversion cw_ok; assumption. }
+    rewrite Hinit. unfold norm_comps. rewrite (split_on_slashcat_app cw _ (names_noslashes _ cw_ok)).
+    rewrite fold_left_app.
+    change (list cp) with text.
+    match goal with |- context [fold_left ?f (?e :: cw) ?a] => assert (Hcw : fold_left f (e :: cw) a = rev cw) end.
+    { rewrite norm_fold_ok; [|constructor; [reflexivity|apply comps_ok_names; exact cw_ok]].
+      change (filter nonempty ([] :: cw)) with (filter nonempty cw). rewrite (filter_nonempty_names _ cw_ok). apply app_nil_r. }
+    change (list cp) with text in Hcw. rewrite Hcw. fold (nstack T). rewrite (nstack_all T HT). rewrite rev_app_distr, rev_involutive. fold base.
+    cbn [repeat app]. reflexivity.
+  Qed.
+
+  Lemma parts_of_abs_names cwd' l : names_ok l -> parts_of cwd' (slash :: intercalate l) = l.
+  Proof.
+    intros Hl. destruct l as [|a l]; [reflexivity|].
+    rewrite intercalate_slashcat by discriminate. apply parts_of_slashcat; [discriminate|exact Hl].
+  Qed.
+
+  Lemma parts_of_dn_rel T : names_ok T -> parts_of cwd (dn p T) = base ++ T.
+  Proof.
+    intros HT. unfold parts_of. rewrite (abspath_dn_rel T HT).
+    assert (Hall : names_ok (base ++ T)) by (apply names_ok_app; split; [apply base_ok|exact HT]).
+    destruct (base ++ T) as [|a l] eqn:E; [reflexivity|].
+    rewrite intercalate_slashcat by discriminate. rewrite (split_on_slashcat _ (names_noslashes _ Hall)).
+    change (filter nonempty ([] :: a :: l)) with (filter nonempty (a :: l)). apply filter_nonempty_names. exact Hall.
+  Qed.
+
+  Lemma R_rel q T : names_ok q -> names_ok T -> prefixb q T = true ->
+    relparts cwd (abspath cwd (dn p T)) (dn p q) = skipn (length q) T.
+  Proof.
+    intros Hq HT Hp. unfold relparts. rewrite (parts_of_dn_rel q Hq). rewrite (abspath_dn_rel T HT).
+    rewrite (parts_of_abs_names cwd (base ++ T)); [|apply names_ok_app; split; [apply base_ok|exact HT]].
+    apply prefixb_spec in Hp as [r ->]. rewrite (app_assoc base q r). rewrite common_len_app, Nat.sub_diag. cbn [repeat app].
+    rewrite !skipn_length_app. reflexivity.
+  Qed.
+
+  (* dirnames of different directories are different strings *)
+  Lemma fold_join_names T : forall x, x <> [] -> endswith [slash] x = false -> names_ok T -> fold_left join T x = x ++ slashcat T.
+  Proof.
+    induction T as [|n T IH]; intros x Hx He HT; [rewrite app_nil_r; reflexivity|].
+    inversion HT as [|? ? Hn HT']; subst. cbn [fold_left].
+    assert (Ej : join x n = x ++ slash :: n).
+    { unfold join. rewrite (isabs_name n Hn), He. destruct x; [contradiction|reflexivity]. }
+    rewrite Ej. rewrite IH.
+    - rewrite slashcat_cons, <- app_assoc. reflexivity.
+    - destruct x; [contradiction|discriminate].
+    - change (slash :: n) with ([slash] ++ n). rewrite app_assoc. apply endswith_name. exact Hn.
+    - exact HT'.
+  Qed.
+
+  Lemma dn_rel_cons c T : names_ok (c :: T) -> exists sep, (sep = [] \/ sep = [slash]) /\ dn p (c :: T) = p ++ sep ++ c ++ slashcat T.
+  Proof.
+    intros H. inversion H as [|? ? Hc HT]; subst. unfold dn. cbn [fold_left].
+    assert (Ej : exists sep, (sep = [] \/ sep = [slash]) /\ join p c = p ++ sep ++ c).
+    { unfold join. rewrite (isabs_name c Hc). destruct (is_empty p || endswith [slash] p); [exists []; auto|exists [slash]; auto]. }
+    destruct Ej as [sep [Hsep Ej]]. exists sep. split; [exact Hsep|]. rewrite Ej. rewrite fold_join_names.
+    - rewrite <- !app_assoc. reflexivity.
+    - destruct p; [contradiction|discriminate].
+    - rewrite app_assoc. apply endswith_name. exact Hc.
+    - exact HT.
+  Qed.
+
+  Lemma dn_rel_inj q cs : names_ok q -> names_ok cs -> text_eqb (dn p cs) (dn p q) = parts_eqb q cs.
+  Proof.
+    intros Hq Hcs. destruct (parts_eqb q cs) eqn:E.
+    - apply parts_eqb_eq in E. subst. apply text_eqb_refl.
+    - apply text_eqb_neq. intros Heq. assert (q = cs); [|subst; rewrite (proj2 (parts_eqb_eq cs cs) eq_refl) in E; discriminate].
+      destruct cs as [|c cs'], q as [|d q']; [reflexivity| | |].
+      + exfalso. destruct (dn_rel_cons d q' Hq) as [sep [_ Ed]]. unfold dn at 1 in Heq. cbn [fold_left] in Heq. rewrite Ed in Heq.
+        rewrite <- (app_nil_r p) in Heq at 1. apply app_inv_head in Heq. inversion Hq as [|? ? Hd _]; subst.
+        apply name_ok_parts in Hd. destruct Hd as [Hdne _]. destruct sep; [destruct d; [contradiction|discriminate]|discriminate].
+      + exfalso. destruct (dn_rel_cons c cs' Hcs) as [sep [_ Ec]]. unfold dn at 2 in Heq. cbn [fold_left] in Heq. rewrite Ec in Heq.
+        rewrite <- (app_nil_r p) in Heq at 2. apply app_inv_head in Heq. inversion Hcs as [|? ? Hc _]; subst.
+        apply name_ok_parts in Hc. destruct Hc as [Hcne _]. destruct sep; [destruct c; [contradiction|discriminate]|discriminate].
+      + inversion Hq as [|? ? Hd Hq']; subst. inversion Hcs as [|? ? Hc Hcs']; subst.
+        (* the separator after p depends on p only *)
+        assert (Hsep : exists sep, (sep = [] \/ sep = [slash]) /\ forall n, name_ok n = true -> join p n = p ++ sep ++ n).
+        { destruct (is_empty p || endswith [slash] p) eqn:Ep; [exists []|exists [slash]]; (split; [auto|]); intros n Hn;
+            unfold join; rewrite (isabs_name n Hn), Ep; reflexivity. }
+        destruct Hsep as [sep [_ Hj]].
+        assert (Ec : dn p (c :: cs') = p ++ sep ++ c ++ slashcat cs').
+        { unfold dn. cbn [fold_left]. rewrite (Hj c Hc). rewrite fold_join_names; [rewrite <- !app_assoc; reflexivity| | |exact Hcs'].
+          - destruct p; [contradiction|discriminate].
+          - rewrite app_assoc. apply endswith_name. exact Hc. }
+        assert (Ed : dn p (d :: q') = p ++ sep ++ d ++ slashcat q').
+        { unfold dn. cbn [fold_left]. rewrite (Hj d Hd). rewrite fold_join_names; [rewrite <- !app_assoc; reflexivity| | |exact Hq'].
+          - destruct p; [contradiction|discriminate].
+          - rewrite app_assoc. apply endswith_name. exact Hd. }
+        rewrite Ec, Ed in Heq. apply app_inv_head in Heq. apply app_inv_head in Heq.
+        apply (f_equal split_on) in Heq.
+        rewrite (split_on_aux cs' c (names_noslashes _ Hcs')) in Heq by (apply name_ok_parts in Hc; tauto).
+        rewrite (split_on_aux q' d (names_noslashes _ Hq')) in Heq by (apply name_ok_parts in Hd; tauto).
+        symmetry. exact Heq.
+  Qed.
+
+  (* K for relative spellings: an inner spec is kept only in the very directory where it was found *)
+  Lemma keep_rel q cs f s : names_ok q -> names_ok cs -> keep_inner cwd (dn p cs) (dn p q, f, s) = parts_eqb q cs.
+  Proof.
+    intros Hq Hcs. unfold keep_inner, sr_dir. cbn [fst]. rewrite (dn_rel_inj q cs Hq Hcs).
+    rewrite (abspath_dn_rel q Hq). destruct (dn_head cs Hcs) as [y Ey]. rewrite Ey.
+    destruct p as [|c0 p']; [contradiction|]. cbn [isabs] in p_rel. cbn [app startswith]. rewrite N.eqb_sym, p_rel. cbn [andb]. apply orb_false_r.
+  Qed.
+End RelSpelling.
+
+(* ------------------------------------------------------------------------------------------------------------------ *)
+(* the walk for a spelling whose relevance test keeps a spec only in its own directory (K below; relative spellings) *)
+
+Lemma prefixb_longer cs n : prefixb (cs ++ [n]) cs = false.
+Proof.
+  destruct (prefixb (cs ++ [n]) cs) eqn:E; [|reflexivity]. apply prefixb_spec in E as [r E].
+  apply (f_equal (@length text)) in E. rewrite !app_length in E. cbn [length] in E. lia.
+Qed.
+
+Lemma parts_eqb_false_of_prefix cs q : prefixb cs q = false -> parts_eqb q cs = false.
+Proof.
+  intros H. destruct (parts_eqb q cs) eqn:E; [|reflexivity]. apply parts_eqb_eq in E. subst. rewrite prefixb_refl in H. discriminate.
+Qed.
+
+Section WalkFalse.
+  Variable matches : nat -> list text -> bool.
+  Variable cwd : text.
+  Variable ignore_files : bool.
+  Variable outer : list specrec.
+  Variable exts : list text.
+  Variable p : text.
+  Hypothesis R : forall q T, names_ok q -> names_ok T -> prefixb q T = true ->
+    relparts cwd (abspath cwd (dn p T)) (dn p q) = skipn (length q) T.
+  Hypothesis K : forall q cs f s, names_ok q -> names_ok cs -> keep_inner cwd (dn p cs) (dn p q, f, s) = parts_eqb q cs.
+
+  Notation conc' := (conc p).
+  Notation ideal' := (ideal matches ignore_files exts (ohit matches cwd outer p) (oname p) false).
+  Notation walk' := (walk matches cwd ignore_files outer exts).
+  Notation aload' := (aload ignore_files).
+
+  Lemma walk_false : forall d, wf_dir d -> forall cs L stack, names_ok cs ->
+    (forall r, In r L -> names_ok (rq r) /\ prefixb cs (rq r) = false) ->
+    exists L', walk' d (dn p cs) cs (map conc' L) = (ideal' d cs stack, map conc' L')
+               /\ (forall r, In r L' -> names_ok (rq r) /\ prefixb cs (rq r) = true).
+  Proof.
+    induction d as [files loads subs IHsubs] using dir_ind'. intros Hwf cs L stack Hcs HL.
+    rewrite walk_unfold. cbv zeta.
+    assert (Efilter : filter (keep_inner cwd (dn p cs)) (map conc' L) = []).
+    { rewrite filter_map_comm. rewrite (filter_all_false _ L); [reflexivity|].
+      intros r Hr. destruct (HL r Hr) as [H1 H2]. unfold conc. rewrite K by assumption. apply parts_eqb_false_of_prefix. exact H2. }
+    rewrite Efilter. cbn [app].
+    assert (Eload : (if ignore_files then load_specs (dn p cs) (filter (fun f => mem_text f loader_names) files) loads else [])
+                    = map conc' (aload' cs (Dir files loads subs))) by exact (load_specs_conc ignore_files p cs (Dir files loads subs)).
+    rewrite Eload. clear Eload.
+    cbn [ideal app]. set (d := Dir files loads subs) in *. set (S2 := aload' cs d).
+    assert (HS2 : stack_ok S2 cs) by (apply aload_ok; exact Hcs).
+    assert (Hwf' := Hwf). cbn [wf_dir] in Hwf'. destruct Hwf' as [Hfiles [Hsubn [Hnd _]]].
+    assert (Hwfs := wf_dir_subs files loads subs Hwf).
+    assert (Hhere : flat_map (walk_file matches cwd outer exts (dn p cs) cs (map conc' S2)) files
+                    = flat_map (fun f => if match_file_extension f exts && negb (hit matches (ohit matches cwd outer p) S2 (cs ++ [f]))
+                                         then [(cs ++ [f], oname p (cs ++ [f]))] else []) files).
+    { apply flat_map_ext_in. intros f Hf. apply (walk_file_conc matches cwd outer exts p R); [exact Hcs| |exact HS2].
+      unfold names_ok in Hfiles. rewrite Forall_forall in Hfiles. apply Hfiles. exact Hf. }
+    assert (Hsub : forall l, Forall (fun x => forall (Hw : wf_dir (snd x)) cs L stack, names_ok cs ->
+                                 (forall r, In r L -> names_ok (rq r) /\ prefixb cs (rq r) = false) ->
+                                 exists L', walk' (snd x) (dn p cs) cs (map conc' L) = (ideal' (snd x) cs stack, map conc' L')
+                                            /\ (forall r, In r L' -> names_ok (rq r) /\ prefixb cs (rq r) = true)) l ->
+              names_ok (map fst l) -> NoDup (map fst l) -> Forall (fun x => wf_dir (snd x)) l ->
+              forall Lin, (forall r, In r Lin -> names_ok (rq r) /\ (rq r = cs \/ exists n rest, rq r = cs ++ n :: rest /\ ~ In n (map fst l))) ->
+              exists Lout, walk_subs matches cwd ignore_files outer exts (dn p cs) cs (map conc' S2) l (map conc' Lin)
+                           = (flat_map (fun x => if hit matches (ohit matches cwd outer p) S2 (cs ++ [fst x; star_t]) then []
+                                                 else ideal' (snd x) (cs ++ [fst x]) S2) l,
+                              map conc' Lout)
+                           /\ (forall r, In r Lout -> names_ok (rq r) /\ prefixb cs (rq r) = true)).
+    { induction l as [|[n sd] l IHl]; intros HIH Hn Hnd' Hw Lin HLin.
+      - exists Lin. split; [reflexivity|]. intros r Hr. destruct (HLin r Hr) as [H1 [H2|[n [rest [H2 _]]]]]; (split; [exact H1|]); rewrite H2.
+        + apply prefixb_refl.
+        + apply prefixb_spec. eexists. reflexivity.
+      - inversion HIH as [|? ? IHsd HIH']; subst. inversion Hn as [|? ? Hnn Hn']; subst. inversion Hnd' as [|? ? Hnotin Hnd'']; subst.
+        inversion Hw as [|? ? Hwsd Hw']; subst. cbn [fst snd] in *.
+        cbn [walk_subs flat_map fst snd].
+        rewrite (pruned_conc matches cwd outer p R cs S2 n Hcs Hnn HS2).
+        destruct (hit matches (ohit matches cwd outer p) S2 (cs ++ [n; star_t])) eqn:Ehit.
+        + cbn [app]. apply (IHl HIH' Hn' Hnd'' Hw' Lin).
+          intros r Hr. destruct (HLin r Hr) as [H1 [H2|[n' [rest [H2 H3]]]]]; (split; [exact H1|]); [left; exact H2|].
+          right. exists n', rest. split; [exact H2|]. intros Hin. apply H3. right. exact Hin.
+        + rewrite <- dn_snoc.
+          assert (Hcsn : names_ok (cs ++ [n])) by (apply names_ok_snoc; assumption).
+          destruct (IHsd Hwsd (cs ++ [n]) Lin S2 Hcsn) as [L1 [E1 HL1]].
+          * intros r Hr. destruct (HLin r Hr) as [H1 [H2|[n' [rest [H2 H3]]]]]; (split; [exact H1|]); rewrite H2.
+            -- apply prefixb_longer.
+            -- destruct (prefixb (cs ++ [n]) (cs ++ n' :: rest)) eqn:E; [|reflexivity]. exfalso.
+               apply prefixb_spec in E as [r' E]. rewrite <- app_assoc in E. apply app_inv_head in E. cbn [app] in E. injection E as E _.
+               subst n'. apply H3. left. reflexivity.
+          * rewrite E1.
+            destruct (IHl HIH' Hn' Hnd'' Hw' L1) as [Lout [E2 HLout]].
+            -- intros r Hr. destruct (HL1 r Hr) as [H1 H2]. split; [exact H1|]. right.
+               apply prefixb_spec in H2 as [rest H2]. exists n, rest. split; [rewrite H2, <- app_assoc; reflexivity|exact Hnotin].
+            -- rewrite E2. exists Lout. split; [reflexivity|exact HLout]. }
+    destruct (Hsub subs IHsubs Hsubn Hnd Hwfs S2) as [Lout [E HLout]].
+    { intros r Hr. destruct (HS2 r Hr) as [H1 _]. split; [exact H1|]. left.
+      unfold S2, aload in Hr. apply in_map_iff in Hr as [fs [<- _]]. reflexivity. }
+    rewrite E. cbn [fst snd]. exists Lout. split; [|exact HLout]. rewrite Hhere. reflexivity.
+  Qed.
+End WalkFalse.
+
+Section SelectedFalse.
+  Variable matches : nat -> list text -> bool.
+  Variable ignore_files : bool.
+  Variable exts : list text.
+  Variable outer_hit : list text -> bool.
+  Variable out_name : list text -> text.
+
+  Notation aload' := (aload ignore_files).
+  Notation hit' := (hit matches outer_hit).
+  Notation ideal' := (ideal matches ignore_files exts outer_hit out_name false).
+  Notation inner_hit' := (inner_hit matches ignore_files false).
+
+  Definition hitF (d : dir) (cs0 cs T : list text) : Prop := outer_hit (cs0 ++ T) = true \/ inner_hit' d cs T.
+
+  Lemma hitF_here d cs0 T : hit' (aload' cs0 d) (cs0 ++ T) = true <-> hitF d cs0 [] T.
+  Proof.
+    rewrite hit_true_iff. unfold hitF. split.
+    - intros [H|[r [Hr Hm]]]; [left; exact H|]. right.
+      unfold aload in Hr. apply in_map_iff in Hr as [fs [<- Hfs]]. unfold rq in Hm. cbn [fst snd] in Hm.
+      rewrite skipn_length_app in Hm. exists 0, fs. cbn [length firstn skipn]. repeat split; auto.
+    - intros [H|[k [fs [Hk [_ [Hfs Hm]]]]]]; [left; exact H|].
+      cbn [length] in Hk. assert (k = 0) by lia. subst k. cbn [firstn skipn] in *.
+      right. exists (cs0, fst fs, snd fs). split.
+      + unfold aload. apply in_map_iff. exists fs. split; [reflexivity|exact Hfs].
+      + unfold rq. cbn [fst snd]. rewrite skipn_length_app. exact Hm.
+  Qed.
+
+  Lemma hitF_child files loads subs n sd cs0 cs' T' : assoc n subs = Some sd ->
+    hitF sd (cs0 ++ [n]) cs' T' <-> hitF (Dir files loads subs) cs0 (n :: cs') (n :: T').
+  Proof.
+    intros Ha. set (d := Dir files loads subs).
+    assert (Hspec : forall k, specs_at ignore_files d (firstn (S k) (n :: cs')) = specs_at ignore_files sd (firstn k cs')).
+    { intros k. unfold specs_at. cbn [firstn dir_at d_subs d]. rewrite Ha. reflexivity. }
+    unfold hitF. rewrite <- !app_assoc. cbn [app]. split.
+    - intros [H|[k [fs [Hk [Hm' [Hfs Hm]]]]]]; [left; exact H|].
+      right. exists (S k), fs. rewrite Hspec. cbn [length skipn]. repeat split; [lia|intros _; f_equal; apply Hm'; reflexivity|exact Hfs|exact Hm].
+    - intros [H|[k [fs [Hk [Hm' [Hfs Hm]]]]]]; [left; exact H|].
+      specialize (Hm' eq_refl). cbn [length] in Hm'. destruct k as [|k]; [discriminate|]. injection Hm' as Hm'.
+      rewrite Hspec in Hfs. cbn [skipn] in Hm. right. exists k, fs. repeat split; [lia|intros _; exact Hm'|exact Hfs|exact Hm].
+  Qed.
+
+  Lemma ideal_false_gen : forall d, wf_dir d -> forall cs0 stack rel out,
+    In (rel, out) (ideal' d cs0 stack) <->
+    exists cs f dd, rel = cs0 ++ cs ++ [f] /\ out = out_name rel /\ dir_at d cs = Some dd /\ In f (d_files dd)
+                    /\ match_file_extension f exts = true
+                    /\ ~ hitF d cs0 cs (cs ++ [f])
+                    /\ forall k, k < length cs -> ~ hitF d cs0 (firstn k cs) (firstn (S k) cs ++ [star_t]).
+  Proof.
+    induction d as [files loads subs IHsubs] using dir_ind'. intros Hwf cs0 stack rel out.
+    assert (Hwfs := wf_dir_subs files loads subs Hwf). rewrite Forall_forall in Hwfs, IHsubs.
+    assert (Hnd : NoDup (map fst subs)) by (cbn [wf_dir] in Hwf; tauto).
+    cbn [ideal app]. set (d := Dir files loads subs) in *. set (stack2 := aload' cs0 d).
+    rewrite in_app_iff, !in_flat_map. split.
+    - intros [[f [Hf Hin]]|[[n sd] [Hx Hin]]].
+      + destruct (match_file_extension f exts) eqn:Eext; [|destruct Hin].
+        destruct (hit' stack2 (cs0 ++ [f])) eqn:Ehit; [destruct Hin|]. cbn [negb andb] in Hin. destruct Hin as [E|[]].
+        injection E as <- <-. exists [], f, d. cbn [app length]. repeat split; auto.
+        * intros H. apply (hitF_here d cs0 [f]) in H. fold stack2 in H. congruence.
+        * intros k Hk. lia.
+      + cbn [fst snd] in Hin. destruct (hit' stack2 (cs0 ++ [n; star_t])) eqn:Ehit; [destruct Hin|].
+        assert (Ha : assoc n subs = Some sd) by (apply assoc_nodup; assumption).
+        apply (IHsubs (n, sd) Hx (Hwfs (n, sd) Hx)) in Hin. destruct Hin as [cs' [f [dd [-> [-> [Hdd [Hf [Hext [Hnh Hpr]]]]]]]]].
+        exists (n :: cs'), f, dd. rewrite <- !app_assoc. cbn [app]. repeat split; auto.
+        * cbn [dir_at d_subs d]. rewrite Ha. exact Hdd.
+        * intros H. apply Hnh. apply (hitF_child files loads subs n sd cs0 cs' (cs' ++ [f]) Ha). exact H.
+        * intros k Hk. destruct k as [|k].
+          -- cbn [firstn app]. intros H. apply (hitF_here d cs0 [n; star_t]) in H. fold stack2 in H. congruence.
+          -- cbn [firstn app]. intros H. cbn [length] in Hk. apply (Hpr k); [lia|].
+             apply (hitF_child files loads subs n sd cs0 (firstn k cs') (firstn (S k) cs' ++ [star_t]) Ha). exact H.
+    - intros [cs [f [dd [-> [-> [Hdd [Hf [Hext [Hnh Hpr]]]]]]]]]. destruct cs as [|n cs'].
+      + left. cbn [dir_at] in Hdd. injection Hdd as <-. exists f. split; [exact Hf|]. rewrite Hext.
+        destruct (hit' stack2 (cs0 ++ [f])) eqn:Ehit.
+        * exfalso. apply Hnh. apply (hitF_here d cs0 [f]). exact Ehit.
+        * left. reflexivity.
+      + right. cbn [dir_at d_subs d] in Hdd. destruct (assoc n subs) as [sd|] eqn:Ha; [|discriminate].
+        assert (Hx := assoc_in n subs sd Ha). exists (n, sd). split; [exact Hx|]. cbn [fst snd].
+        destruct (hit' stack2 (cs0 ++ [n; star_t])) eqn:Ehit.
+        * exfalso. apply (Hpr 0); [cbn [length]; lia|]. cbn [firstn app]. apply (hitF_here d cs0 [n; star_t]). exact Ehit.
+        * apply (IHsubs (n, sd) Hx (Hwfs (n, sd) Hx)). exists cs', f, dd. rewrite <- !app_assoc. cbn [app]. repeat split; auto.
+          -- intros H. apply Hnh. apply (hitF_child files loads subs n sd cs0 cs' (cs' ++ [f]) Ha) in H. exact H.
+          -- intros k Hk H. apply (Hpr (S k)); [cbn [length]; lia|]. cbn [firstn app].
+             apply (hitF_child files loads subs n sd cs0 (firstn k cs') (firstn (S k) cs' ++ [star_t]) Ha) in H. exact H.
+  Qed.
+
+  Theorem ideal_false_spec d rel out : wf_dir d ->
+    (In (rel, out) (ideal' d [] []) <-> exists cs f, rel = cs ++ [f] /\ out = out_name rel /\ selected matches ignore_files exts outer_hit false d cs f).
+  Proof.
+    intros Hwf. rewrite (ideal_false_gen d Hwf [] [] rel out). cbn [app].
+    split.
+    - intros [cs [f [dd [-> [-> [Hdd [Hf [Hext [Hnh Hpr]]]]]]]]]. exists cs, f. repeat split. exists dd. repeat split; auto.
+    - intros [cs [f [-> [-> [dd [Hdd [Hf [Hext [Hnh Hpr]]]]]]]]]. exists cs, f, dd. repeat split; auto.
+  Qed.
+End SelectedFalse.
+
+(* relative spellings: what the walk selects *)
+Theorem walk_spec_rel_lemma matches cwd ignore_files outer exts cw p d :
+  cw <> [] -> names_ok cw -> cwd = slashcat cw -> p <> [] -> isabs p = false -> wf_dir d ->
+  forall rel out,
+    In (rel, out) (iter_files_in_path matches cwd ignore_files outer exts d p) <->
+    exists cs f, rel = cs ++ [f] /\ out = oname p (cs ++ [f])
+                 /\ selected matches ignore_files exts (ohit matches cwd outer p) false d cs f.
+Proof.
+  intros Hcw Hok Hcwd Hp Hrel Hwf rel out. unfold iter_files_in_path.
+  destruct (walk_false matches cwd ignore_files outer exts p
+              (R_rel cwd cw p Hcw Hok Hcwd Hp Hrel) (keep_rel cwd cw p Hcw Hok Hcwd Hp Hrel) d Hwf [] [] [])
+    as [L' [E _]]; [constructor|intros r []|].
+  cbn [map] in E. unfold dn at 1 in E. cbn [fold_left] in E. rewrite E. cbn [fst].
+  rewrite (ideal_false_spec matches ignore_files exts _ _ d rel out Hwf). split.
+  - intros [cs [f [-> [-> H]]]]. exists cs, f. repeat split. exact H.
+  - intros [cs [f [-> [-> H]]]]. exists cs, f. repeat split. exact H.
+Qed.
+
+(* fewer ignore specs apply in the degenerate mode, so it can only select more *)
+Lemma selected_mono matches ignore_files exts oh d cs f :
+  selected matches ignore_files exts oh true d cs f -> selected matches ignore_files exts oh false d cs f.
+Proof.
+  intros [dd [Hdd [Hf [Hext [Hnh Hpr]]]]]. exists dd.
+  assert (Hi : forall c T, ignoredP matches ignore_files oh false d c T -> ignoredP matches ignore_files oh true d c T).
+  { intros c T [H|[k [fs [Hk [_ [Hfs Hm]]]]]]; [left; exact H|]. right. exists k, fs. repeat split; [exact Hk|discriminate|exact Hfs|exact Hm]. }
+  repeat split; auto.
+  - intros k Hk H. apply (Hpr k Hk). apply Hi. exact H.
+Qed.
